@@ -128,6 +128,14 @@ def run_spec(job, env, extra_judge=None):
                             extra_judge(prog, r, exp, r1, spec, conv, out)
 
                     n, st, capped = X.explore(prog, on_exec, prio_mode=pm, conv=conv, **opts)
+                    if idx % 53 == 0:
+                        # determinism is checked, not assumed: a fixed slice of programs is run twice
+                        a = X.observation(X.execute(prog, (), prio_mode=pm, conv=conv, **opts))
+                        b = X.observation(X.execute(prog, (), prio_mode=pm, conv=conv, **opts))
+                        cnt["determinism_rechecks"] = cnt.get("determinism_rechecks", 0) + 1
+                        if a != b:
+                            out["violations"].append({"sig": "harness", "msg": "two executions of the same program and schedule differ: %r vs %r" % (a, b),
+                                                      "features": feats(prog), "case": {"prog": prog.term, "prefix": [], "conv": conv, "opts": opts, "spec": {"cats": []}}})
                     out["states"] += st
                     cnt["schedules"] = cnt.get("schedules", 0) + n
                     if capped:
